@@ -11,7 +11,7 @@ import json, sys, os
 prop, dest, demo, needs, det, here, base = sys.argv[1:8]
 ran = open(os.path.join(here, ".work", "seedverify-%s.txt" % base)).read().strip().splitlines()
 p = [json.loads(l) for l in open(os.path.join(here, "properties.jsonl")) if json.loads(l)["id"] == prop][0]
-meta = {"breaks_property": prop, "property_title": p["title"], "origin": "independent sub-agent (round 2: told only the property text and one already-used idea to avoid) working in a scratch worktree of /repo",
+meta = {"breaks_property": prop, "property_title": p["title"], "origin": "independent sub-agent (later round: told only the property text, ideas already used to avoid, and a flavour hint such as fault, ordering, configuration or input) working in a scratch worktree of /repo",
         "needs_to_manifest": needs, "demo": {"file": os.path.basename(demo), "original_path": demo},
         "confirmed_in_scratch_worktree": ran, "detected_by": det,
         "how_to_run_the_check_against_it": "tools/seeded_run.sh %s   (git -C /repo apply seeded/%s/patch.diff; ./check %s quick; git -C /repo checkout -- .)" % (dest, dest, prop)}
